@@ -100,6 +100,7 @@ fn eval_line(l: &str, stats: &mut BTreeMap<String, u64>) -> (String, String) {
     (outs.join(" | "), verdict)
 }
 
+const TAG_SHAPES: bool = true;
 fn main() {
     quiet_panics();
     let mut out = Out::new();
@@ -113,8 +114,8 @@ fn main() {
             let mut rng = Rng::new(seed ^ 0xC02 ^ if EXTRAS { 0xE00 } else { 0 });
             let mut ninputs = 0u64; let mut nontrivial = 0u64;
             for gi in 0..ngram {
-                let cfg = GenCfg { extras: EXTRAS, guarded: true, stack_ops: gi % 2 == 0, tags: false, max_rules: 5, max_depth: 5, builtin_names: true };
-                let rules = gen_grammar(&mut rng, &cfg);
+                let cfg = GenCfg { extras: EXTRAS, guarded: true, stack_ops: gi % 2 == 0, tags: EXTRAS && gi % 4 == 1, max_rules: 5, max_depth: 5, builtin_names: true, tag_shapes: TAG_SHAPES };
+                let rules = if gi < 48 { gen_grammar_idiom(&mut rng, &cfg, gi) } else { gen_grammar(&mut rng, &cfg) };
                 let orules = match catch(|| pest_meta::optimizer::optimize(rules.clone())) { Ok(o) => o, Err(_) => continue };
                 let srules = show_orules(&orules);
                 let l = format!("G {}", srules);
